@@ -166,6 +166,12 @@ func (k *Kernel) table(name string) *Table {
 	return t
 }
 
+// ClearTable empties one table (built-in chains only, policies ACCEPT).
+func (k *Kernel) ClearTable(name string) {
+	delete(k.Tables, name)
+	k.table(name)
+}
+
 // ResetFault restarts the command counter used by FailAt.
 func (k *Kernel) ResetFault(at int) { k.FailAt, k.count = at, 0 }
 
